@@ -428,7 +428,7 @@ def run(tier, t0, only_pairs=None):
     acc.sample({'menu_constants': {kk: (hex(v) if isinstance(v, int) else v) for kk, v in k.items() if kk not in ('sib', 'shared_slots')}})
     acc.sample({'shared_cache_slots [all, reflected] per geometric pair': k.get('shared_slots')})
     acc.sample({'some_sites': sorted(allsites)[:5]})
-    rule = (f'{len(tasks)} explorations over {len(A)} calls A and {len(B)} calls B (cold and warm library): every line event of A inside the a5 package is a preemption point at which B runs to completion '
+    rule = (f'{len(tasks)} explorations over {len(A)} calls A and {len(B)} calls B (cold and warm library): every line event of A inside the a5 package is a preemption point at which B runs to completion in a real second thread '
             '(thorough: every menu call as A x 12 calls B, cold and warm, every occurrence, plus every bytecode instruction for the short calls); after every schedule a fixed set of probe calls is made single-threaded; a short pair is also explored at cache fill levels 0, 8, 16, .. and every power of two / round number +-1 (thorough: every level 0..239); a state is (pair, temperature, point); non-trivial counts distinct (file, function, line) sites per pair')
     return common.finish(PID, LEVEL, tier, acc, t0, rule, [
         'context bound 2 (one preemption of A by a complete B, both role assignments); two or more preemptions and free-threaded memory effects are not explored',
